@@ -248,6 +248,28 @@ let () =
           print_endline (out_str o ^ " | " ^ string_of_int (Bytes.length b) ^ " " ^ Digest.to_hex (Digest.bytes b))) (dfrun dinit ops);
         print_endline "END";
         flush stdout
+      | ["copyrun"; fe; n] ->
+        (* CopyTo as a history of the destination store: n lines "coll <name> <cmpid>" / "item <key> <val> <prio>";
+           prints the answers' summary and length + MD5 of the predicted destination file *)
+        let n = int_of_string n in
+        let colls = ref [] in
+        for _ = 1 to n do
+          (match String.split_on_char ' ' (input_line stdin) with
+           | ["coll"; name; cmpid] -> colls := ((bytes_of_hex name, nat_of_int (int_of_string cmpid)), []) :: !colls
+           | ["item"; key; v; prio] ->
+             (match !colls with
+              | ((nm, c), items) :: rest ->
+                colls := ((nm, c), { ikey = bytes_of_hex key; ival = bytes_of_hex v; iprio = z_of_int (int_of_string prio) } :: items) :: rest
+              | [] -> ())
+           | _ -> ())
+        done;
+        let src = List.rev_map (fun ((nm, c), items) -> ((nm, c), List.rev items)) !colls in
+        let (outs, f) = copy_result src (z_of_int (int_of_string fe)) in
+        let allok = List.for_all (fun o -> match o with ROk -> true | _ -> false) outs in
+        let b = Bytes.create (List.length f) in
+        List.iteri (fun i x -> Bytes.set b i (Char.chr (int_of_n x))) f;
+        print_endline ((if allok then "ok " else "notok ") ^ string_of_int (Bytes.length b) ^ " " ^ Digest.to_hex (Digest.bytes b));
+        flush stdout
       | ["mrun"; fb; nops] ->
         (* several handles: "snap" and "close" lines are handle operations, everything else goes through handle H *)
         let nops = int_of_string nops in
